@@ -2,6 +2,7 @@ import InfluxQL.Model.ParserStmt
 import InfluxQL.Model.PrintStmt
 import InfluxQL.Lemmas.Digits
 import InfluxQL.Lemmas.ParserTok
+import InfluxQL.Lemmas.IntLit
 import InfluxQL.Lemmas.RegexRoundTrip
 import InfluxQL.Lemmas.NumberRoundTrip
 import InfluxQL.Props.C01
@@ -34,16 +35,16 @@ theorem integer_print_parse (n : Nat) (h : (n : Int) ≤ maxInt64) (pos : Pos) (
     simp
   rw [hd]
   unfold parseIntegerLit
-  rw [C01.splitSign_natDigits]
+  rw [splitSign_natDigits]
   have h0 : minInt64 ≤ (n : Int) := by unfold minInt64; omega
-  simp [C01.allDigits_natDigits, digitsVal_natDigits, h, h0, StateT.run, pure, StateT.pure, Except.pure]
+  simp [allDigits_natDigits, digitsVal_natDigits, h, h0, StateT.run, pure, StateT.pure, Except.pure]
 
 /-- `UnsignedLiteral.String()` (a value above `MaxInt64`) is read back as the same
 `UnsignedLiteral`: `ParseInt` fails, `ParseUint` succeeds. -/
 theorem unsigned_print_parse (n : Nat) (h1 : maxInt64 < (n : Int)) (h2 : (n : Int) ≤ maxUInt64) (pos : Pos) (s : PState) :
     (parseIntegerLit (natDigits n) pos).run s = .ok (.unsigned n, s) := by
   unfold parseIntegerLit
-  rw [C01.splitSign_natDigits]
+  rw [splitSign_natDigits]
   have hd := natDigits_all_digits n
   have hne := natDigits_ne_nil n
   have hh : (natDigits n).head? ≠ some '-' ∧ (natDigits n).head? ≠ some '+' := by
@@ -55,7 +56,7 @@ theorem unsigned_print_parse (n : Nat) (h1 : maxInt64 < (n : Int)) (h2 : (n : In
       · intro h; simp at h; rw [h] at hc; exact absurd hc (by decide)
       · intro h; simp at h; rw [h] at hc; exact absurd hc (by decide)
   have hnot : ¬ (minInt64 ≤ (n : Int) ∧ (n : Int) ≤ maxInt64) := by omega
-  simp [C01.allDigits_natDigits, digitsVal_natDigits, hnot, hh.1, hh.2, h2, StateT.run, pure, StateT.pure, Except.pure]
+  simp [allDigits_natDigits, digitsVal_natDigits, hnot, hh.1, hh.2, h2, StateT.run, pure, StateT.pure, Except.pure]
 
 /-- The one negative value whose digits exceed `MaxInt64`: `-9223372036854775808` is printed as `-`
 followed by these digits; they are read as the unsigned literal 2^63, which the unary-minus case
@@ -125,17 +126,6 @@ keywords, one blank and `QuoteIdent(n)`. The keyword prefix is handled at token 
 (`C01.dispatch_step_sub` / `dispatch_step_handler`); from the handler on the theorem is about the
 text. -/
 
-/-- `ParseIdent` when, after one whitespace lexeme, the scanner is at an identifier. -/
-theorem parseIdent_after_blank (s : PState) (name : Str) (hn : s.n = 0)
-    (hws : (scan s.r).1.tok = .WS) (hid : (scan (scan s.r).2).1.tok = .IDENT)
-    (hlit : (scan (scan s.r).2).1.lit = name) :
-    ∃ s', parseIdent.run s = .ok (name, s') ∧ s'.r = (scan (scan s.r).2).2 ∧ s'.n = 0 := by
-  refine ⟨{ s with r := (scan (scan s.r).2).2, buf := ((scan (scan s.r).2).1 :: ((scan s.r).1 :: s.buf).take 3).take 3 },
-    ?_, rfl, hn⟩
-  unfold parseIdent
-  rw [P.run_bind _ _ s _ _ (scanIW_skip_ws s hn hws (by rw [hid]; decide) (by rw [hid]; decide) (by rw [hid]; decide))]
-  simp [hid, hlit, StateT.run, pure, StateT.pure, Except.pure]
-
 /-- The four handlers that read exactly one name. -/
 def singleNameHandlers : List (Handler × (Str → Statement)) :=
   [(.parseDropDatabaseStatement, .dropDatabase), (.parseDropMeasurementStatement, .dropMeasurement),
@@ -181,19 +171,6 @@ theorem singleName_quoted_print_parse_partial (fuel : Nat) (h : Handler) (C : St
     rcases hh with ⟨rfl, rfl⟩ | ⟨rfl, rfl⟩ | ⟨rfl, rfl⟩ | ⟨rfl, rfl⟩ <;>
       (simp only [runHandler]; rw [P.run_bind _ _ s name s' hrun]; rfl)
   · exact absurd hex hne
-
-theorem identFirst_not_blank {c : Char} (h : isIdentFirstChar c = true) :
-    isWhitespace c = false ∧ c ≠ eofRune ∧ c ≠ '\r' := by
-  have hn : 65 ≤ c.toNat := by
-    unfold isIdentFirstChar isLetter at h
-    simp only [Bool.or_eq_true, Bool.and_eq_true, decide_eq_true_eq, beq_iff_eq] at h
-    omega
-  refine ⟨?_, ?_, ?_⟩
-  · unfold isWhitespace
-    simp only [Bool.or_eq_false_iff, beq_eq_false_iff_ne, ne_eq]
-    omega
-  · intro he; rw [he] at hn; exact absurd hn (by decide)
-  · intro he; rw [he] at hn; exact absurd hn (by decide)
 
 /-- **The same for a name that is printed bare** (a non-keyword identifier): here the text after
 the name must not continue it — it starts with a rune `x` that is no identifier rune, no `"` and
